@@ -105,12 +105,18 @@ pub enum Dimension {
     LengthVw,
     /// A length relative to viewport height.
     LengthVh,
-    /// A length relative to viewport size (min or max).
+    /// A length relative to the smaller viewport side (`vmin`).
     LengthVx,
+    /// A length relative to the larger viewport side (`vmax`).
+    LengthVmax,
     /// A length relatvie to base font size.
     LengthRem,
-    /// A length relative to font size.
+    /// A length relative to font size (`em`).
     LenghtEm,
+    /// A length relative to the x-height of the font (`ex`).
+    LengthEx,
+    /// A length relative to the width of `0` in the font (`ch`).
+    LengthCh,
     /// An angle.
     Angle,
     /// A duration.
@@ -139,8 +145,11 @@ impl Unit {
 
             Self::Vw => Dimension::LengthVw,
             Self::Vh => Dimension::LengthVh,
-            Self::Vmin | Self::Vmax => Dimension::LengthVx,
-            Self::Ch | Self::Em | Self::Ex => Dimension::LenghtEm,
+            Self::Vmin => Dimension::LengthVx,
+            Self::Vmax => Dimension::LengthVmax,
+            Self::Em => Dimension::LenghtEm,
+            Self::Ex => Dimension::LengthEx,
+            Self::Ch => Dimension::LengthCh,
             Self::Rem => Dimension::LengthRem,
 
             Self::Deg | Self::Grad | Self::Rad | Self::Turn => {
@@ -292,8 +301,11 @@ impl From<Dimension> for CssDimension {
             | Dimension::LengthVw
             | Dimension::LengthVh
             | Dimension::LengthVx
+            | Dimension::LengthVmax
             | Dimension::LengthRem
-            | Dimension::LenghtEm => Self::Length,
+            | Dimension::LenghtEm
+            | Dimension::LengthEx
+            | Dimension::LengthCh => Self::Length,
             Dimension::Angle => Self::Angle,
             Dimension::Time => Self::Time,
             Dimension::Frequency => Self::Frequency,
